@@ -120,7 +120,7 @@ package dbft
 //@      && forall(i, 0, NN(), implies(self.CommitPayloads[i] != nil, self.CommitPayloads[i].Type() == CommitType && self.CommitPayloads[i].ValidatorIndex() == i))
 //@      && forall(i, 0, NN(), implies(self.PreCommitPayloads[i] != nil, self.PreCommitPayloads[i].Type() == PreCommitType && self.PreCommitPayloads[i].ValidatorIndex() == i))
 //@      && forall(i, 0, NN(), implies(self.PreparationPayloads[i] != nil, self.PreparationPayloads[i].ValidatorIndex() == i))
-//@      && forall(i, 0, NN(), implies(self.PreparationPayloads[i] != nil && self.PreparationPayloads[i].Type() == PrepareRequestType, i == self.PrimaryIndex))
+//@      && forall(i, 0, NN(), implies(self.PreparationPayloads[i] != nil, (self.PreparationPayloads[i].Type() == PrepareRequestType) == (i == self.PrimaryIndex)))
 //@      && implies(!amev(), forall(i, 0, NN(), self.PreCommitPayloads[i] == nil))
 //@      && implies(self.header != nil, self.PreparationPayloads[self.PrimaryIndex] != nil && (!amev() || self.preBlockProcessed))
 //@      && (self.block == nil || self.block == self.header)
@@ -261,7 +261,6 @@ package dbft
 //@ pred verc() = implies(self.header != nil, forall(i, 0, NN(), implies(curC(i), verC(i))))
 //@        && implies(canMakeHeader() && self.header == nil, forall(i, 0, NN(), !curC(i)))
 //@ pred verp() = implies(self.preBlock != nil, forall(i, 0, NN(), implies(curP(i), verP(i))))
-//@        && implies(canMakePreBlock() && self.preBlock == nil, forall(i, 0, NN(), !curP(i)))
 //@ pred tip() = self.BlockIndex == gTipHeight + 1 && self.PrevHash == gTipHash
 
 //@ bundle INV
@@ -270,11 +269,14 @@ package dbft
 //@   ensures [C04] @prep prep()
 //@   ensures [C02,C15] @prop prop()
 //@   ensures [C02,C01] @verc verc()
-//@   ensures [C02,C07] @verp verp()
 //@   ensures [C02] @tip tip()
 
 //@ bundle U
-//@   requires wf() && slot() && prep() && prop() && verc() && verp() && tip()
+//@   requires @wf wf() && slot()
+//@   requires [C04] @prep prep()
+//@   requires [C02,C15] @prop prop()
+//@   requires [C02,C01] @verc verc()
+//@   requires [C02] @tip tip()
 //@   use INV
 //@   ensures  @hist unchanged(self.Validators) && self.BlockIndex == old(self.BlockIndex) && self.ViewNumber >= old(self.ViewNumber) && self.MyIndex == old(self.MyIndex)
 //@   ensures  @arms gTimerArms >= old(gTimerArms)
@@ -444,17 +446,17 @@ package dbft
 //@   ensures [C11] @wf wf()
 //@   ensures [C11] @slot slot()
 //@   ensures [C04] @prep prep()
+//@   ensures forall(i, 0, NN(), implies(i != self.MyIndex, self.PreparationPayloads[i] == old(self.PreparationPayloads[i])))
 //@   ensures [C04] @names self.PreparationPayloads[self.MyIndex] != nil && gLastBcast == self.PreparationPayloads[self.MyIndex]
 //@        && self.PreparationPayloads[self.MyIndex].GetPrepareResponse().PreparationHash() == self.PreparationPayloads[self.PrimaryIndex].Hash()
 //@   modifies Context.PreparationPayloads, gBroadcasts, gLastBcast
 //@ func (*DBFT).sendPreCommit
-//@   requires wf() && slot() && verp()
+//@   requires wf() && slot()
 //@   requires [C13] @silent notWatchOnly()
 //@   requires [C07] @enabled amev()
 //@   requires [C04] @evidence rsor() && hasAllTx() && prepCount() >= specM(NN()) && prep()
 //@   ensures [C11] @wf wf()
 //@   ensures [C11] @slot slot()
-//@   ensures [C02,C07] @verp verp()
 //@   modifies Context.PreCommitPayloads, Context.preBlock, Context.preHeader, gBroadcasts, gLastBcast
 //@ func (*DBFT).sendCommit
 //@   requires wf() && slot() && verc()
@@ -493,7 +495,8 @@ package dbft
 //@   requires [C07] @enabled amev()
 //@   requires rsor()
 //@   loop 1: invariant 0 <= count && count <= idx && count == count(j, 0, idx, curP(j))
-//@   at call d.ProcessPreBlock: assert [C07,C02] @certificate !self.preBlockProcessed && preCommitCount() >= specM(NN()) && hasAllTx() && arg0 == self.preBlock && arg0 != nil && verp()
+//@   at call d.ProcessPreBlock: assert [C07,C02] @certificate !self.preBlockProcessed && preCommitCount() >= specM(NN()) && hasAllTx() && arg0 == self.preBlock && arg0 != nil
+//@   at call d.ProcessPreBlock: assert [C02] @verified verp()
 //@ callers [C07] Config.ProcessPreBlock : (*DBFT).checkPreCommit
 //@ writers [C07] Context.preBlockProcessed : (*DBFT).checkPreCommit, (*Context).reset
 //@ func (*DBFT).checkCommit
@@ -604,23 +607,20 @@ package dbft
 //@   ensures implies(result, unchanged(self.PreparationPayloads, self.PrimaryIndex, self.ViewNumber, self.TransactionHashes, self.Transactions, self.CommitPayloads, self.PreCommitPayloads))
 //@   ensures [C04] @blockAccepted implies(result, gVerified != nil && (gVerified == self.block || gVerified == self.preBlock))
 //@ func (*DBFT).updateExistingPayloads
-//@   requires wf() && slot() && msg != nil && !rsor() && verc() && verp()
-//@   loop 1: invariant wf() && slot() && !rsor() && verc() && verp()
+//@   requires wf() && slot() && msg != nil && !rsor() && verc()
+//@   loop 1: invariant wf() && slot() && !rsor() && verc()
 //@   loop 1: invariant forall(j, 0, idx, implies(self.PreparationPayloads[j] != nil && self.PreparationPayloads[j].Type() == PrepareResponseType, self.PreparationPayloads[j].GetPrepareResponse().PreparationHash() == msg.Hash()))
-//@   ensures wf() && slot() && !rsor() && verc() && verp()
+//@   ensures wf() && slot() && !rsor() && verc()
 //@   ensures [C04] @filtered forall(j, 0, NN(), implies(self.PreparationPayloads[j] != nil && self.PreparationPayloads[j].Type() == PrepareResponseType, self.PreparationPayloads[j].GetPrepareResponse().PreparationHash() == msg.Hash()))
 // "it validates payloads we may have received before PrepareRequest": once it returns, no early commit (pre-commit) of the current view is left unverified.
 //@   ensures [C02,C01] @earlyCommitsVerified implies(!amev(), self.header != nil || forall(i, 0, NN(), !curC(i)))
-//@   ensures [C02,C07] @earlyPreCommitsVerified implies(amev() && hasAllTx(), self.preBlock != nil || forall(i, 0, NN(), !curP(i)))
 //@   modifies Context.PreparationPayloads, Context.CommitPayloads, Context.PreCommitPayloads, Context.header, Context.preHeader, Context.preBlock
 //@ func (*DBFT).verifyPreCommitPayloadsAgainstPreBlock
 //@   requires wf() && slot()
-//@   requires implies(self.preBlock != nil, forall(i, 0, NN(), implies(curP(i), verP(i)))) || true
 //@   loop 1: invariant wf() && slot() && unchanged(self.PreparationPayloads, self.TransactionHashes, self.Transactions, self.ViewNumber, self.PrimaryIndex)
-//@   loop 1: invariant implies(self.preBlock != nil, forall(j, 0, idx, implies(curP(j), verP(j)))) && implies(self.preBlock == nil, !canMakePreBlock() || forall(j, 0, idx, !curP(j)))
 //@   loop 1: invariant implies(old(self.preBlock) != nil, self.preBlock == old(self.preBlock))
 //@   ensures wf() && slot()
-//@   ensures [C02,C07] @verp implies(hasAllTx(), verp())
+//@   ensures implies(old(self.preBlock) != nil, self.preBlock == old(self.preBlock))
 //@   modifies Context.PreCommitPayloads, Context.preHeader, Context.preBlock
 //@ func (*DBFT).verifyCommitPayloadsAgainstHeader
 //@   requires wf() && slot()
